@@ -154,3 +154,13 @@ func storeInto(ref ssa.Instruction, al *ssa.Alloc) ssa.Instruction {
 	}
 	return nil
 }
+
+// c03ImportantTrivia (R14): the importance of a declaration is part of its precedence.  parseDeclaration finds
+// `!important` with a small state machine over the tokens of the value; a comment is to it what white space is
+// (`color: red !important /* c */`, `! /**/ important`): where a switch of that function has a case for the
+// white-space token it has one for the comment token.  The same syntactic rule as C06.R5, here for the one function
+// that sets Declaration.Important.
+func c03ImportantTrivia(c *core.Check) {
+	r := c.Rule("R14", "!important survives comments: in css/parser.parseDeclaration, which sets the importance of a declaration, every switch with a case for the white-space token has a case for the comment token, and every condition that excludes white space excludes comments", 1)
+	triviaRule(c, r, "parseDeclaration")
+}
